@@ -144,6 +144,9 @@ def synthetic_texts(seed=0, nv=8, nq=3, na=2, system="orthorhombic", lattice=Tru
         if lattice == "pseudo_cubic":
             # nearly, but not, cubic: the three axial strain fractions differ by a few 1e-4 (distinct strain classes that a sloppy comparison would merge)
             r, c1, c2 = numpy.array([1.0, 1.0008, 0.9994]), numpy.array([0.0016, 0.0, -0.0016]), numpy.array([0.0, 0.001, -0.001])
+        if lattice == "auxetic":
+            # negative linear compressibility: the first axis LENGTHENS under compression, its strain fraction is negative (about -0.47, 0.63, 0.83)
+            r, c1, c2 = numpy.array([1.0, 1.12, 0.93]), numpy.array([2.4, -0.9, -1.5]), numpy.array([0.5, 0.2, -0.7])
         for i in range(len(Vs)):
             ratio = r * (1.0 + c1 * fs[i] + c2 * fs[i] ** 2)
             a = (Vs[i] / numpy.prod(ratio)) ** (1.0 / 3.0) * ratio
